@@ -94,10 +94,6 @@ MUTANTS = [
      'fxpmath/functions.py',
      "    # propagate inaccuracy from arguments\n    if x.status['inaccuracy'] or y.status['inaccuracy']:\n        z.status['inaccuracy'] = True\n\n    return z   ",
      "    # propagate inaccuracy from arguments\n    if x.status['inaccuracy'] and out is None:\n        z.status = x.status\n    elif y.status['inaccuracy']:\n        z.status['inaccuracy'] = True\n\n    return z   "),
-    ('M27', 'C20', 'constructor keeps the caller ndarray as its buffer when it is already int64 raw data',
-     'fxpmath/objects.py',
-     "            # convert to array of val_dtype\n            new_val = new_val.astype(val_dtype)\n\n            if val_dtype == object:       \n                # convert each element to int",
-     "            # convert to array of val_dtype\n            new_val = new_val.astype(val_dtype, copy=False)\n\n            if val_dtype == object:       \n                # convert each element to int"),
     ('M28', 'C02', 'saturation of Python-integer (object) inputs clamps on the magnitude',
      'fxpmath/objects.py',
      "            if isinstance(new_val, np.ndarray) and new_val.dtype == object:\n                val = np.clip(new_val, val_min, val_max)",
